@@ -26,7 +26,8 @@ PROP = {
     "technique": "Coq proof by structural induction over query trees + correspondence cases evaluated by vm_compute",
     "rule": "a case is one (corpus split into segments with deletes/merge, query tree) pair observed through Count, Query::count, DocSetCollector (scoring off and on), "
             "TopDocs(limit >= num docs), (DocSetCollector, TopDocs) and FilterCollector; non-trivial = tree depth >= 2 with >= 2 occur kinds and >= 1 matching and >= 1 non-matching live "
-            "document; distinct by hash of the Gallina case term",
+            "document; every corpus also gets seek-driven phrase-prefix trees (one- and two-term phrase + prefix as Must/MustNot siblings of term clauses) and a focus corpus where the first term "
+            "sits in ~90% of the documents at varying positions; regression witnesses for F31, F131, F134; distinct by hash of the Gallina case term",
     "trusted_base": COMMON_TB + ["fuzzy/regex/prefix acceptance is an oracle: the harness runs levenshtein_automata / tantivy_fst::Regex over the vocabulary and ships the accepted sets",
                                  "leaf scorers (postings, phrase scorer, range/term-set doc sets) are modelled by the set of documents they contain"],
     "assumptions": ["tokenisation and term encoding of text are outside this property (C19, C15)", "doc ids fit u32 (segments below 2^31 documents)"],
